@@ -882,6 +882,60 @@ def oracle_explog(ctx, th):
 
 
 
+def oracle_poison(ctx):
+    """results are the caller's: modifying a returned array / object in place must not change what LATER calls compute (a shared identity
+    element handed out by qpow(q, 0), eye(), q ** 0, UnitQuaternion() would be polluted).  The power laws are re-evaluated after each mutation."""
+    rng = ctx.rng
+
+    def href(q, n):
+        r = np.array([1.0, 0, 0, 0])
+        for _ in range(abs(n)):
+            r = np.asarray(hamilton(r, q), float)
+        return np.r_[r[0], -r[1:]] if n < 0 else r
+
+    def laws(stage):
+        ctx.case(('poison', stage))
+        ctx.count('oracle:poison')
+        for _ in range(4):
+            q = rng.normal(size=4)
+            for n in (-3, -1, 0, 1, 2, 4):
+                got = np.asarray(base.qpow(q, n), float)
+                want = href(q, n)
+                if not np.max(np.abs(got - want)) <= 1e-9 * max(1.0, float(np.max(np.abs(want)))):
+                    ctx.fail('oracle:poison:qpow-after-caller-mutated-a-result', f"after [{stage}]: qpow(q, {n}) = {got.tolist()} instead of {want.tolist()}",
+                             {'stage': stage, 'q_hex': [float(x).hex() for x in q], 'n': n})
+                    return False
+                gq = np.asarray((Quaternion(q) ** n).vec, float)
+                if not np.max(np.abs(gq - want)) <= 1e-9 * max(1.0, float(np.max(np.abs(want)))):
+                    ctx.fail('oracle:poison:Quaternion-pow-after-caller-mutated-a-result', f"after [{stage}]: Quaternion(q) ** {n} = {gq.tolist()} instead of {want.tolist()}",
+                             {'stage': stage, 'q_hex': [float(x).hex() for x in q], 'n': n})
+                    return False
+        for nm, mk in (('base.eye()', lambda: np.asarray(base.eye(), float)), ('UnitQuaternion()', lambda: np.asarray(UnitQuaternion().vec, float)),
+                       ('qpow(q, 0)', lambda: np.asarray(base.qpow([1.0, 2, 3, 4], 0), float)), ('Quaternion(q) ** 0', lambda: np.asarray((Quaternion([1.0, 2, 3, 4]) ** 0).vec, float))):
+            v = mk()
+            if not np.array_equal(v, np.array([1.0, 0, 0, 0])):
+                ctx.fail('oracle:poison:identity-element-changed', f"after [{stage}]: {nm} is {v.tolist()}, not the identity quaternion", {'stage': stage, 'site': nm})
+                return False
+        return True
+
+    if not laws('nothing'):
+        return
+    muts = [('r = qpow(q, 0); r *= 3', lambda: base.qpow([0.5, 1, -2, 3], 0).__imul__(3)),
+            ('e = eye(); e[0] = -1', lambda: base.eye().__setitem__(0, -1.0)),
+            ('p = Quaternion(q) ** 0; p.vec *= -1', lambda: (Quaternion([0.5, 1, -2, 3]) ** 0).vec.__imul__(-1)),
+            ('u = UnitQuaternion(); u.vec[1] = 7', lambda: UnitQuaternion().vec.__setitem__(1, 7.0)),
+            ('r = qpow(q, 2); r += 1', lambda: base.qpow([0.5, 1, -2, 3], 2).__iadd__(1)),
+            ('c = conj(q0); c *= 0', lambda: base.conj(np.array([1.0, 0, 0, 0])).__imul__(0)),
+            ('m = qqmul(eye(), eye()); m -= 5', lambda: base.qqmul(base.eye(), base.eye()).__isub__(5))]
+    for stage, f in muts:
+        try:
+            f()
+        except Exception:  # noqa: a read-only result is fine too
+            ctx.count('oracle:poison:mutation-refused')
+        if not laws(stage):
+            return
+
+
 def oracle_multi(ctx):
     """every class-level operation of C12 on MULTI-VALUED Quaternion / UnitQuaternion operands (lengths 2..5, 4
     included in every round; N x N, N x 1, 1 x N): the result must have N elements, element k equal to the
@@ -1078,3 +1132,5 @@ def run(ctx):
         oracle_explog(ctx, th)
     with ctx.timed('oracle-multi'):
         oracle_multi(ctx)
+    with ctx.timed('oracle-poison'):      # last: if a shared value were polluted, everything after it would be falsified
+        oracle_poison(ctx)
